@@ -9,6 +9,7 @@ Observed: the PDU types the peer receives (A-RELEASE-RP = type 6 must appear), t
 outcome and terminal notifications, the number of Pending responses, and the time it took.
 The same (n, arrival) is evaluated on the Lean model `Release.serve` and compared.
 """
+from harness import poolinit as _e2e_exit
 import threading
 import time
 
@@ -183,7 +184,98 @@ def run_find(n, arrival, kind, timeout=3.0, subop=None, bad_last=False):
         srv.shutdown()
 
 
+def coalesced_scenario(tls, lead):
+    """A raw peer (plain TCP or TLS) associates with a pynetdicom acceptor and then writes, in ONE write (one TLS
+    record), `lead` C-ECHO requests followed directly by its A-RELEASE-RQ.  The release request is the peer's last
+    PDU: if the acceptor leaves it unread in a buffer nothing will ever wake it."""
+    import os
+    import socket
+    import ssl
+
+    from harness import common, e2e, rawpeer
+    from pynetdicom import AE, evt
+    from pynetdicom.sop_class import Verification
+
+    e2e.quiet()
+    released, aborted = [], []
+    ae = AE(ae_title="ANY-SCP")
+    ae.add_supported_context(Verification)
+    ae.acse_timeout = ae.dimse_timeout = ae.network_timeout = 3.0
+    sctx = None
+    if tls:
+        certs = os.path.join(common.REPO, "pynetdicom", "tests", "cert_files")
+        sctx = ssl.SSLContext(ssl.PROTOCOL_TLS_SERVER)
+        sctx.load_cert_chain(os.path.join(certs, "server.crt"), os.path.join(certs, "server.key"))
+    srv = ae.start_server(("127.0.0.1", 0), block=False, ssl_context=sctx, evt_handlers=[
+        (evt.EVT_C_ECHO, lambda e: 0), (evt.EVT_RELEASED, lambda e: released.append(1)), (evt.EVT_ABORTED, lambda e: aborted.append(1))])
+    s = socket.create_connection(("127.0.0.1", srv.socket.getsockname()[1]), timeout=5.0)
+    try:
+        if tls:
+            cctx = ssl.SSLContext(ssl.PROTOCOL_TLS_CLIENT)
+            cctx.check_hostname = False
+            cctx.verify_mode = ssl.CERT_NONE
+            s = cctx.wrap_socket(s)
+
+        def read_pdu(timeout):
+            s.settimeout(timeout)
+            buf = b""
+            try:
+                while len(buf) < 6:
+                    d = s.recv(6 - len(buf))
+                    if not d:
+                        return None
+                    buf += d
+                n = int.from_bytes(buf[2:6], "big")
+                while len(buf) < 6 + n:
+                    d = s.recv(6 + n - len(buf))
+                    if not d:
+                        return None
+                    buf += d
+            except (socket.timeout, OSError):
+                return None
+            return buf
+
+        s.sendall(rawpeer.build_rq(b"ANY-SCP".ljust(16), b"RAW-PEER".ljust(16)))
+        ac = read_pdu(5.0)
+        if ac is None or ac[0] != 2:
+            return {"harness_error": f"no A-ASSOCIATE-AC ({ac[:1] if ac else None})"}
+        s.sendall(b"".join(rawpeer.c_echo_rq(1, i + 1) for i in range(lead)) + rawpeer.RELEASE_RQ)
+        pdus = []
+        t0 = time.monotonic()
+        while time.monotonic() - t0 < 2.5:
+            p_ = read_pdu(2.5 - (time.monotonic() - t0))
+            if p_ is None:
+                break
+            pdus.append(p_[0])
+            if p_[0] in (6, 7):
+                break
+        time.sleep(0.1)
+        return {"established": True, "pdus": pdus, "rp": 6 in pdus, "echo_answers": pdus.count(4),
+                "acc_released": bool(released), "acc_aborted": bool(aborted), "n_released": len(released)}
+    finally:
+        try:
+            s.close()
+        except OSError:
+            pass
+        srv.shutdown()
+
+
 def _job(args):
+    if args[0] == "coalesced":
+        box = {}
+
+        def body2():
+            try:
+                box["r"] = coalesced_scenario(args[1], args[2])
+            except Exception:
+                import traceback
+
+                box["r"] = {"harness_error": traceback.format_exc()[-1200:]}
+
+        th = threading.Thread(target=body2, daemon=True)
+        th.start()
+        th.join(25)
+        return box.get("r", {"hang": True})
     n, arrival, kind = args[:3]
     subop = args[3] if len(args) > 3 else None
     bad_last = subop == "bad-last"
@@ -233,12 +325,26 @@ def run(ctx):
     # the release request arrives after a C-GET whose last sub-operation could not even be encoded (an exception path
     # of the acceptor's own send_c_store): the reactor must be running again afterwards
     jobs += [(n, n + 1, "get", "bad-last") for n in (1, 2)]
-    pool = mp.get_context("fork").Pool(processes=12, maxtasksperchild=10)
+    # the release request shares a write (a TLS record) with the PDUs before it
+    co = [("coalesced", tls, lead) for tls in (False, True) for lead in ((0, 1, 3) if ctx.quick else (0, 1, 2, 3, 8))]
+    pool = mp.get_context("fork").Pool(processes=12, maxtasksperchild=10, initializer=_e2e_exit.no_join_at_exit)
     try:
         results = pool.map(_job, jobs, chunksize=1)
+        co_results = pool.map(_job, co, chunksize=1)
     finally:
         pool.terminate()
         pool.join()
+    for job, r in zip(co, co_results):
+        _, tls, lead = job
+        case = ["coalesced", tls, lead]
+        ctx.case(case, nontrivial=lead > 0, kind=f"coalesced:{'tls' if tls else 'tcp'}:{lead}-requests-then-release")
+        if r.get("hang") or "harness_error" in r or not r.get("established"):
+            ctx.diff(case, r, "n/a", "scenario harness failed")
+        elif not r["rp"] or not r["acc_released"] or r["acc_aborted"]:
+            # (requests still queued when the release request is met are dropped: not this property's business)
+            ctx.fail(f"release-not-answered:coalesced:{'tls' if tls else 'tcp'}",
+                     f"{'TLS' if tls else 'TCP'} peer writes {lead} C-ECHO request(s) and its A-RELEASE-RQ in one write: it saw PDU types "
+                     f"{r['pdus']}; acceptor released={r['acc_released']} aborted={r['acc_aborted']}", case)
     # a sub-operation arrival that the peer then answers is, for the handler loop, an arrival before the next yield
     model = ctx.lean([["release.serve", j[0], (j[3][0] + 1 if len(j) > 3 and j[3] != "bad-last" else j[1]), False] for j in jobs])
     for job, r, m in zip(jobs, results, model):
@@ -288,6 +394,10 @@ def run(ctx):
 
 def replay(ctx, case):
     c = case["case"]
+    if c[0] == "coalesced":
+        r = coalesced_scenario(bool(c[1]), int(c[2]))
+        print(r)
+        return 0 if r.get("rp") and r.get("acc_released") and not r.get("acc_aborted") else 1
     kind, n, arrival = c[1], c[2], c[3]
     bad_last = len(c) > 4 and c[4] == "bad-last"
     subop = tuple(c[4]) if len(c) > 4 and not bad_last else None
